@@ -9,7 +9,7 @@
 From Coq Require Import List Arith ZArith QArith Reals Bool Lia.
 From TLV Require Import Base.Shape Base.Tensor Base.RSum Model.Structure Proofs.StructureProofs Proofs.StructureProofs2
   Proofs.StructureProofs3 Proofs.StructureProofs4 Proofs.StructureProofsQ Proofs.StructureProofsR Proofs.StructureNormR
-  Base.BigSum Proofs.StructureConj Proofs.StructureConjR Proofs.StructureConjCompose Proofs.StructureTTConj Model.StructureWeights Proofs.StructureWeightsProofs Proofs.StructureP2Proofs Model.StructureHooi Proofs.StructureProofs5 Proofs.StructureHooiProofs Proofs.StructureHooiConj.
+  Base.BigSum Proofs.StructureConj Proofs.StructureConjR Proofs.StructureConjCompose Proofs.StructureTTConj Model.StructureWeights Proofs.StructureWeightsProofs Proofs.StructureP2Proofs Model.StructureHooi Proofs.StructureProofs5 Proofs.StructureHooiProofs Proofs.StructureHooiConj Model.StructureRanks Proofs.StructureRanksProofs.
 From TLV Require Import Model.StructureQ.
 Import ListNotations.
 Local Open Scope nat_scope.
@@ -886,3 +886,148 @@ Theorem C08_parafac2_result_canonical : forall (F : Type) (getB : F -> nat -> na
      rsum (nth i Js 0%nat) (fun j => mmul r (nth i (snd res) zmatR) B j a * mmul r (nth i (snd res) zmatR) B j b) = rsum r (fun l => B l a * B l b)).
 Proof. exact parafac2_R_canonical. Qed.
 Print Assumptions C08_parafac2_result_canonical.
+
+(* ================================================================== round 7: the rank validators, second part (Model/StructureRanks.v) *)
+Local Open Scope nat_scope.
+(* validate_tucker_rank(fixed_modes = fm) with a fraction / 'same', as coded (the fixed modes are popped in descending order and re-inserted in
+   ascending order): for EVERY duplicate-free list of valid modes IN ANY ORDER the call is accepted exactly when brentq's bracket has a sign
+   change, the result has one rank per mode, a fixed mode keeps the size of the tensor (the documented rank[i] = tensor_shape[i]), and removing
+   the fixed positions from the result leaves exactly the ranks rounded from the free sizes, in order, each >= 1 *)
+Theorem C08_validate_tucker_rank_fixed_modes : forall shape q rd fm c, NoDup fm -> (forall m, In m fm -> m < length shape) ->
+  exists r P free,
+    validate_tucker_rank_fm shape (RFrac q) rd (Some fm) c = (if brentq_bracket_ok (tucker_residual_fm shape P free q) q then Ok r else Err) /\
+    length r = length shape /\ (forall m, In m fm -> nth m r 0 = nth m shape 0) /\
+    pop_modes (sort_desc fm) shape [] = Ok (P, free) /\ length free + length fm = length shape /\
+    pop_modes (sort_desc fm) r [] = Ok (P, frac_ranks rd c (map n2q free)) /\
+    Forall (fun x => 1 <= x) (frac_ranks rd c (map n2q free)).
+Proof. exact validate_tucker_rank_fm_frac. Qed.
+Print Assumptions C08_validate_tucker_rank_fixed_modes.
+Example C08_validate_tucker_rank_fixed_modes_ex :
+  validate_tucker_rank_fm [24; 10; 10] (RFrac (1 # 2)) RFloor (Some [0]) (5637 # 10000) = Ok [24; 5; 5] /\
+  validate_tucker_rank_fm [3; 4; 5; 6] (RFrac 1) RRound (Some [3; 1]) (3 # 4) = Ok [2; 4; 4; 6] /\
+  validate_tucker_rank_fm [3; 4] (RFrac (1 # 2)) RRound (Some [1; 0]) 0 = Err /\          (* every mode fixed, q < 1: no sign change *)
+  validate_tucker_rank_fm [3; 4] (RFrac 1) RRound (Some [2]) 0 = Err.                      (* pop beyond the end *)
+Proof. vm_compute. repeat split. Qed.
+(* brentq's bracket [0, max(q, 1)]: with at least one free mode and q >= 0 the function changes sign (f(0) = -q P <= 0 <= f(max(q, 1))), so the
+   call is ACCEPTED for every duplicate-free list of valid modes that leaves a mode free, in any order (with every mode fixed it need not be:
+   third line of the Example above) *)
+Theorem C08_brentq_bracket_free : forall shape fixed free q, length fixed < length shape -> (0 <= q)%Q ->
+  brentq_bracket_ok (tucker_residual_fm shape fixed free q) q = true.
+Proof. exact brentq_bracket_free. Qed.
+Print Assumptions C08_brentq_bracket_free.
+Theorem C08_validate_tucker_rank_fixed_modes_accepted : forall shape q rd fm c, NoDup fm -> (forall m, In m fm -> m < length shape) ->
+  length fm < length shape -> (0 <= q)%Q ->
+  exists r, validate_tucker_rank_fm shape (RFrac q) rd (Some fm) c = Ok r /\ length r = length shape /\
+            (forall m, In m fm -> nth m r 0 = nth m shape 0).
+Proof. exact validate_tucker_rank_fm_accepted. Qed.
+Print Assumptions C08_validate_tucker_rank_fixed_modes_accepted.
+(* an int rank with fixed modes: a fixed mode keeps its size, the others get the int *)
+Theorem C08_validate_tucker_rank_fixed_modes_int : forall shape r0 rd fm c r, validate_tucker_rank_fm shape (RInt r0) rd (Some fm) c = Ok r ->
+  length r = length shape /\ forall i, i < length shape -> nth i r 0 = if Structure.memb i fm then nth i shape 0 else r0.
+Proof. exact validate_tucker_rank_fm_int. Qed.
+Print Assumptions C08_validate_tucker_rank_fixed_modes_int.
+Theorem C08_validate_tucker_rank_fm_none : forall shape spec rd c, validate_tucker_rank_fm shape spec rd None c = validate_tucker_rank shape spec rd c.
+Proof. exact validate_tucker_rank_fm_none. Qed.
+Print Assumptions C08_validate_tucker_rank_fm_none.
+(* sorted(fixed_modes, reverse=True) *)
+Theorem C08_sort_desc_spec : forall l, Permutation.Permutation l (sort_desc l) /\ (NoDup l -> Sorted.StronglySorted (fun a b => b < a) (sort_desc l)).
+Proof. exact (fun l => conj (sort_desc_perm l) (sort_desc_sdesc l)). Qed.
+Print Assumptions C08_sort_desc_spec.
+
+(* WHAT A FRACTIONAL RANK IS A FRACTION OF.  Tucker (no fixed modes): at the rational ranks c * I_k the parameter count (core + factors) minus
+   the requested q * prod(shape) IS the function whose root the code asks brentq for -- for every c: a root reproduces the requested
+   fraction exactly, an approximate root misses it by its residual (which Corr.C08.oracle_ok bounds by 1e-9 * prod(shape) on every run) *)
+Theorem C08_tucker_fraction_identity : forall shape q c,
+  (tucker_params shape (scaled c (map n2q shape)) - q * n2q (prod shape) == tucker_residual shape q c)%Q.
+Proof. exact tucker_fraction_identity. Qed.
+Print Assumptions C08_tucker_fraction_identity.
+(* with fixed modes the equation AS CODED counts a fixed factor as size^2 * x although its size does not depend on x: rounding DOWN can then
+   exceed the requested fraction (24 x 10 x 10, mode 0 fixed, half the parameters = 1200: the ranks (24, 5, 5) have 1276) -- an observation
+   about the code, reported; the model follows the code *)
+Example C08_fixed_modes_fraction_as_coded_ex :
+  validate_tucker_rank_fm [24; 10; 10] (RFrac (1 # 2)) RFloor (Some [0]) (5637 # 10000) = Ok [24; 5; 5] /\
+  Qle (Qabs.Qabs (tucker_residual_fm [24; 10; 10] [(0, 24)] [10; 10] (1 # 2)%Q (5637 # 10000)%Q)) (1 # 2)%Q /\
+  Qeq (tucker_params [24; 10; 10] (map n2q [24; 5; 5])) 1276%Q /\ Qeq (Qmult (1 # 2)%Q (n2q (prod [24; 10; 10]))) 1200%Q.
+Proof. vm_compute. repeat split; discriminate. Qed.
+(* CP: the rank chosen for a fraction q >= 0 reproduces q * prod(shape) parameters to within one rank-one term (sum(shape) parameters): 'floor'
+   never exceeds the request and one more term would, 'ceil' reaches it and one term less would not, 'round' is within half a term *)
+Theorem C08_validate_cp_rank_fraction : forall shape q rd r, (0 <= q)%Q -> validate_cp_rank shape (RFrac q) rd = Ok r ->
+  let target := (q * n2q (prod shape))%Q in let term := n2q (sum_list shape) in
+  (0 < term)%Q /\
+  match rd with
+  | RFloor => (cp_params shape (n2q r) <= target)%Q /\ (target < cp_params shape (n2q r) + term)%Q
+  | RCeil => (cp_params shape (n2q r) - term < target)%Q /\ (target <= cp_params shape (n2q r))%Q
+  | RRound => (cp_params shape (n2q r) - term * (1 # 2) <= target)%Q /\ (target <= cp_params shape (n2q r) + term * (1 # 2))%Q
+  end.
+Proof. exact validate_cp_rank_fraction. Qed.
+Print Assumptions C08_validate_cp_rank_fraction.
+Example C08_validate_cp_rank_fraction_ex : validate_cp_rank [3; 4; 5] (RFrac (1 # 2)) RFloor = Ok 2 /\ validate_cp_rank [3; 4; 5] (RFrac (1 # 2)) RCeil = Ok 3.
+Proof. vm_compute. split; reflexivity. Qed.
+(* TR: the constant rank r chosen for a fraction q >= 0 (r^2 * sum(shape) parameters, C08_tt_params_const): 'floor' r^2 sum <= q prod < (r+1)^2 sum,
+   'ceil' (r-1)^2 sum < q prod <= r^2 sum, 'round' (2r-1)^2 sum <= 4 q prod <= (2r+1)^2 sum *)
+Theorem C08_tt_params_const : forall shape r, (tt_params shape (repeat r (S (length shape))) == r * r * n2q (sum_list shape))%Q.
+Proof. exact tt_params_const. Qed.
+Print Assumptions C08_tt_params_const.
+Theorem C08_validate_tr_rank_fraction : forall shape q rd rk, (0 <= q)%Q -> validate_tr_rank shape (RFrac q) rd = Ok rk ->
+  exists r : nat, rk = repeat r (S (length shape)) /\
+  let target := (q * n2q (prod shape))%Q in let params (z : Q) := tt_params shape (repeat z (S (length shape))) in
+  match rd with
+  | RFloor => (params (n2q r) <= target)%Q /\ (target < params (n2q r + 1))%Q
+  | RCeil => (0 < target)%Q -> (params (n2q r - 1) < target)%Q /\ (target <= params (n2q r))%Q
+  | RRound => (1 <= r -> (params (2 * n2q r - 1) <= 4 * target)%Q) /\ (4 * target <= params (2 * n2q r + 1))%Q
+  end.
+Proof. exact validate_tr_rank_fraction. Qed.
+Print Assumptions C08_validate_tr_rank_fraction.
+Example C08_validate_tr_rank_fraction_ex : validate_tr_rank [3; 4; 5] (RFrac 1) RRound = Ok [2; 2; 2; 2] /\ validate_tr_rank [3; 4; 5] (RFrac 1) RCeil = Ok [3; 3; 3; 3].
+Proof. vm_compute. split; reflexivity. Qed.
+
+(* ================================================================== round 7: the SVD contract of the HOOI theorems discharged from LAPACK's contract *)
+From TLV Require Import Base.Ops Model.Svd Proofs.SvdProofs Proofs.SvdWitness Proofs.StructureSvdBridge.
+Local Open Scope nat_scope.
+(* (read-only import of C05's model of svd_interface / truncated_svd and of its theorem interface_truncated_e2e_gen.)  One call
+   svd_interface(M, n_eigenvecs = r, method = 'truncated_svd', flip_sign = flip) on a d1 x d2 matrix, through C05's model of the clamping, the
+   full_matrices choice, the slicing and svd_flip: if LAPACK's answers tl.svd(M, full_matrices = f) meet LAPACK's contract (orthonormal factors
+   of the documented shapes reproducing M), the returned U has min(r, d1) orthonormal columns -- what C08_hooi_result_canonical assumes *)
+Theorem C08_svd_interface_truncated_unitary : forall (orc : list (list R) -> bool -> triple R) (flip ub : bool) (d1 d2 r : nat) (M : list (list R)),
+  1 <= d1 -> (forall f, svd_contract d1 d2 (mget Rops M) f (orc M f)) ->
+  unitary_cols R 0%R 1%R Rplus Rmult (fun x => x) d1 (Nat.min r d1) (svd_interface_U orc flip ub d1 d2 r M).
+Proof. exact svd_interface_U_unitary. Qed.
+Print Assumptions C08_svd_interface_truncated_unitary.
+(* HOOI (tucker / partial_tucker, method = 'truncated_svd') under LAPACK's contract ONLY: for every cap, decision sequence, mask setting and
+   initialisation kind the returned factors are orthonormal with min(rank_i, I_i) columns (the shape model's clipping) and the returned core is
+   the projection of the (imputed) data onto the RETURNED factors.  unf0 / unfU: the matrices handed to svd_interface (arbitrary functions of
+   the state: the orthonormality of U does not depend on them); LAPACK's contract is assumed on exactly these matrices *)
+Theorem C08_hooi_lapack_canonical : forall shape ranks : list nat, length ranks = length shape -> (forall i, i < length shape -> 1 <= nth i shape 0) ->
+  forall (orc : list (list R) -> bool -> triple R) (flip ub : bool)
+         (unf0 : nat -> tens R -> list (list R)) (cols0 : nat -> tens R -> nat)
+         (unfU : nat -> tens R -> list (nat -> nat -> R) -> list (list R)) (colsU : nat -> tens R -> list (nat -> nat -> R) -> nat),
+  (forall i X f, i < length shape -> svd_contract (nth i shape 0) (cols0 i X) (mget Rops (unf0 i X)) f (orc (unf0 i X) f)) ->
+  (forall i X fs f, i < length shape -> svd_contract (nth i shape 0) (colsU i X fs) (mget Rops (unfU i X fs)) f (orc (unfU i X fs) f)) ->
+  forall (imp : tens R -> tens R -> list (nat -> nat -> R) -> tens R) ik mask tol_set n decisions X G0 fs0,
+  ik = InitSvd \/ (0 < n /\ length fs0 = length shape) ->
+  let '(X', G', fs') := hooi_K R 0%R 1%R Rplus Rmult (fun x => x) shape (lsvd0 shape ranks orc flip ub unf0 cols0) (lsvdU shape ranks orc flip ub unfU colsU)
+                                imp ik mask tol_set n decisions X G0 fs0 in
+  unitary_all R 0%R 1%R Rplus Rmult (fun x => x) shape (clipped shape ranks) fs' /\
+  (forall jdx, G' jdx = tproj R 0%R 1%R Rplus Rmult (fun x => x) shape fs' X' jdx) /\ (mask = false -> X' = X).
+Proof. exact hooi_lapack_canonical. Qed.
+Print Assumptions C08_hooi_lapack_canonical.
+(* non-vacuity: LAPACK's contract is satisfiable on the matrices of a run (C05's witness, the 2 x 1 matrix (2, 0)^T with its two LAPACK answers) *)
+Example C08_hooi_lapack_hyps_ex : forall i (X : tens R) f, i < length [2] -> svd_contract (nth i [2] 0) 1 (mget Rops Mtall) f (orc_tall Mtall f).
+Proof. exact bridge_hyps_ex. Qed.
+
+(* ================================================================== round 7: the initial CP weights (initialize_cp as a set of paths) *)
+(* the clause "otherwise the CP weights are all ones" needs the INITIAL weights to be ones (C08_wprog_unit_weights starts from them): for every
+   set of paths accepted by ipaths_ok (every path ends with a freshly built CP tensor -- weights None / random_cp(normalise_factors=False) --
+   followed only by factor updates and normalisations inside `if normalize_factors`), every path returns weights all ones when
+   normalize_factors is False, whatever weights the caller's initialisation carried and whatever cp_normalize does.  On every run the harness
+   enumerates the paths of the CURRENT source of initialize_cp (ast; fail closed) and Coq evaluates ipaths_ok on them.  That
+   CPTensor((None, factors)) and random_cp(normalise_factors=False) deliver weights of ones is the library's constructor contract (tested per run) *)
+Theorem C08_ipaths_unit_weights : forall (K : Type) (k1 : K) (normalise : (nat -> K) -> nat -> K) ps, ipaths_ok ps = true ->
+  forall p users, In p ps -> exists w', iexec K k1 normalise false p users None = Some w' /\ forall r, w' r = k1.
+Proof. exact ipaths_unit_weights. Qed.
+Print Assumptions C08_ipaths_unit_weights.
+Example C08_ipaths_sharp_ex : ipaths_ok [[IUser]] = false /\ ipaths_ok [[IFresh; INormalize false]] = false /\
+  ipaths_ok [[IFresh; IFactors; INormalize true]; [IUser; IFresh; INormalize true]] = true /\
+  (match iexec Z 1%Z (fun w r => (2 * w r)%Z) false [IFresh; INormalize false] [] None with Some w => w 0 | None => 0%Z end = 2%Z) /\
+  (match iexec Z 1%Z (fun w r => (2 * w r)%Z) false [IUser] [fun _ => 5%Z] None with Some w => w 0 | None => 0%Z end = 5%Z).
+Proof. exact ipaths_sharp. Qed.
